@@ -227,16 +227,14 @@ impl Value {
         }
     }
 
-    pub fn to_css_string(&self, span: Span, is_compressed: bool) -> SassResult<String> {
-        serialize_value(
-            self,
-            &Options::default().style(if is_compressed {
-                OutputStyle::Compressed
-            } else {
-                OutputStyle::Expanded
-            }),
-            span,
-        )
+    /// The text of this value as SassScript sees it: in interpolation, string
+    /// concatenation, `@warn`/`@debug`/`@error` and plain CSS function arguments.
+    ///
+    /// This text is part of evaluation (its length and contents are observable by
+    /// the stylesheet), so it must not depend on the output style; only the final
+    /// serialization of the CSS tree does. `_is_compressed` is kept for callers.
+    pub fn to_css_string(&self, span: Span, _is_compressed: bool) -> SassResult<String> {
+        serialize_value(self, &Options::default().style(OutputStyle::Expanded), span)
     }
 
     pub fn inspect(&self, span: Span) -> SassResult<String> {
